@@ -41,6 +41,7 @@ import (
 	"k8s.io/apimachinery/pkg/runtime"
 	gatewayv1 "sigs.k8s.io/gateway-api/apis/v1"
 
+	meshconfig "istio.io/api/mesh/v1alpha1"
 	networkingclient "istio.io/client-go/pkg/apis/networking/v1"
 	"istio.io/istio/pilot/pkg/features"
 	"istio.io/istio/pilot/pkg/model"
@@ -183,6 +184,14 @@ func (c permCase) line() []string {
 	return l
 }
 
+// meshConfig of the case (nil = default).
+func (c permCase) meshConfig() *meshconfig.MeshConfig {
+	if c.mesh != "" || c.prof == "waypoint" {
+		return nil
+	}
+	return buildMesh(c.seed).mc
+}
+
 func (c permCase) allObjects() []obj {
 	if c.mesh != "" {
 		return witnessMesh(c.mesh)
@@ -260,7 +269,7 @@ func createLateK8s(s *txds.FakeDiscoveryServer, o runtime.Object) error {
 }
 
 // buildWorld inserts `objs` in the given order; the first `early` of them before the server starts.
-func buildWorld(objs []obj, early int) *world {
+func buildWorld(objs []obj, early int, mc *meshconfig.MeshConfig) *world {
 	w := &world{f: &failer{}}
 	var cfgs []config.Config
 	var k8s []runtime.Object
@@ -274,7 +283,11 @@ func buildWorld(objs []obj, early int) *world {
 			k8s = append(k8s, o.twin.DeepCopyObject())
 		}
 	}
-	w.s = txds.NewFakeDiscoveryServer(w.f, txds.FakeOptions{Configs: cfgs, KubernetesObjects: k8s})
+	opts := txds.FakeOptions{Configs: cfgs, KubernetesObjects: k8s}
+	if mc != nil {
+		opts.MeshConfig = proto.Clone(mc).(*meshconfig.MeshConfig)
+	}
+	w.s = txds.NewFakeDiscoveryServer(w.f, opts)
 	quiet.Silence()
 	for _, o := range objs[early:] {
 		if o.cfg != nil {
@@ -619,13 +632,14 @@ func insertionOrder(c permCase, objs []obj, k int) ([]obj, int) {
 
 func runCase(c permCase, keepRaw bool) (cr *caseRun) {
 	objs := c.objects()
+	mc := c.meshConfig()
 	defer c.setProfile()()
 	cr = &caseRun{digests: map[string][]string{}, nobjs: len(objs)}
 	want := ""
 	var wantLines []string
 	for k := 0; k < c.k; k++ {
 		order, early := insertionOrder(c, objs, k)
-		w := buildWorld(order, early)
+		w := buildWorld(order, early, mc)
 		w.proxies = c.proxies()
 		fp, ok := w.settle(want, 8*time.Second)
 		if !ok {
